@@ -262,6 +262,9 @@ def gen_tags(r, version, rt, canonical=False, maxn=3, heavy=False):
             if t == "i":
                 v = str(abs(int(v)) % 100000)
             tags.append([name, t, v])
+    if version == "gfa2" and rt == "S" and fair(r, 0.06):
+        # in GFA2 LN is a tag like any other (files converted from GFA1 by other tools carry it)
+        tags.append(["LN", "i", str(r.randint(1, 40))])
     r.shuffle(tags)
     return tags
 
